@@ -1759,15 +1759,29 @@ impl<'a> AstResolver<'a> {
         };
 
         let other = &state.graph.types()[id];
-        for (name, item) in &other.imports {
+        for (original, item) in &other.imports {
             let name = replace_name(
                 include,
                 world,
                 ty,
-                name,
+                original,
                 ExternKind::Import,
                 &mut replacements,
             )?;
+            // A used type of the included world stays a used type (the same type as in
+            // its interface), under its possibly replaced name
+            if let Some(used) = other.uses.get(original) {
+                if !ty.imports.contains_key(&name) {
+                    ty.uses.entry(name.clone()).or_insert_with(|| UsedType {
+                        interface: used.interface,
+                        name: used
+                            .name
+                            .clone()
+                            .or_else(|| (name != *original).then(|| original.clone())),
+                    });
+                }
+            }
+
             ty.imports.entry(name).or_insert(*item);
         }
 
